@@ -277,6 +277,44 @@ def main(args):
         if len(stats["samples"]) < 4:
             stats["samples"].append({"files": nfiles, "options": opts, "records_in_reference": sum(full_ref.values())})
         shutil.rmtree(tree, ignore_errors=True)
+    # match flood: one file makes a string exceed the 1,000,000-match limit; the files a thread scans afterwards must
+    # be reported exactly as in their own invocations (the limit disables the string for the rest of THAT scan only)
+    if len(HANGS) < 3:
+        ftree = os.path.join(base, "flood")
+        os.makedirs(ftree)
+        frules = os.path.join(base, "flood.yar")
+        open(frules, "w").write("rule pad { strings: %s condition: any of them }\n"
+                                'rule flood { strings: $q = "Q" condition: $q }\nrule other { strings: $o = "needle" condition: $o }\n'
+                                % " ".join('$p%d = "pad%03dq"' % (i, i) for i in range(140)))
+        flist = []
+        big = os.path.join(ftree, "000big.bin")
+        open(big, "wb").write(b"Q" * 1100000 + b" needle")
+        flist.append(big)
+        for i in range(24):
+            pth = os.path.join(ftree, "f%02d.txt" % i)
+            open(pth, "wb").write(b"xx Q yy needle" if i % 3 else b"no hit here" + bytes([65 + i]))
+            flist.append(pth)
+        slist = os.path.join(base, "flood.list")
+        open(slist, "w").write("\n".join(flist) + "\n")
+        ref = collections.Counter()
+        for pth in flist:
+            rc, out, err = run([yara, "-p", "1", frules, pth], timeout=120)
+            stats["runs"] += 1
+            for r in parse_records(out):
+                ref[r] += 1
+        for threads in (1, 2, 8):
+            for target, extra in ((slist, ["--scan-list"]), (ftree, ["-r"])):
+                rc, out, err = run([yara, "-p", str(threads)] + extra + [frules, target], timeout=180)
+                stats["runs"] += 1
+                got = collections.Counter(parse_records(out))
+                if got != ref:
+                    chk.violation("output-differs-after-match-limit", dict(
+                        threads=threads, mode=extra[0], cmd=" ".join([yara, "-p", str(threads)] + extra + [frules, target]),
+                        missing=[b"|".join(x).decode("latin1")[:200] for x in list((ref - got).elements())[:4]],
+                        extra=[b"|".join(x).decode("latin1")[:200] for x in list((got - ref).elements())[:4]]))
+                else:
+                    stats["nontrivial"].add("flood-%d-%s" % (threads, extra[0]))
+        shutil.rmtree(ftree, ignore_errors=True)
     # error path: exit status must be non-zero exactly when an error was reported
     tree = os.path.join(base, "errtree")
     files = make_tree(rng, tree, 5)
